@@ -58,6 +58,11 @@ theorem KStep.cancelled_waiter {k k' : K} (h : KStep k k') (hi : k.Inv) (c : Nat
     rw [(K.view_stepJoiner k j).2, hx] at hx'; cases hx'; simp [hnd] at hd
   | handTake =>
     rw [K.cores_handTake, hx] at hx'; cases hx'; simp [hnd] at hd
+  | produce y => simp only [K.produce] at hx'; rw [hx] at hx'; cases hx'; simp [hnd] at hd
+  | pwait j0 p0 _ _ _ => simp only [K.pwait, K.setPP] at hx'; rw [hx] at hx'; cases hx'; simp [hnd] at hd
+  | pput j0 p0 h0 _ _ =>
+    rw [K.pput_eq k j0 p0 h0] at hx'; simp only [K.setPP] at hx'; rw [hx] at hx'; cases hx'; simp [hnd] at hd
+  | pabort j0 p0 _ _ => simp only [K.pabort, K.setPP] at hx'; rw [hx] at hx'; cases hx'; simp [hnd] at hd
 
 /-- `task_done()` edits the counter, the event and the joiners only -/
 theorem K.frame_taskDone (k : K) :
@@ -136,6 +141,11 @@ theorem KStep.block_exit {k k' : K} (h : KStep k k') (hi : k.Inv) (c : Nat) (x x
     rw [(K.view_stepJoiner k j).2, hx] at hx'; cases hx'; simp [hnd] at hd
   | handTake =>
     rw [K.cores_handTake, hx] at hx'; cases hx'; simp [hnd] at hd
+  | produce y => simp only [K.produce] at hx'; rw [hx] at hx'; cases hx'; simp [hnd] at hd
+  | pwait j0 p0 _ _ _ => simp only [K.pwait, K.setPP] at hx'; rw [hx] at hx'; cases hx'; simp [hnd] at hd
+  | pput j0 p0 h0 _ _ =>
+    rw [K.pput_eq k j0 p0 h0] at hx'; simp only [K.setPP] at hx'; rw [hx] at hx'; cases hx'; simp [hnd] at hd
+  | pabort j0 p0 _ _ => simp only [K.pabort, K.setPP] at hx'; rw [hx] at hx'; cases hx'; simp [hnd] at hd
 
 /-- what `task_done()` does to the joiners when the counter is positive -/
 theorem K.joiner_taskDone (k : K) (hpos : 0 < k.unfinished) (j : Nat) (x : Joiner) (hx : k.joiners[j]? = some x) :
@@ -216,6 +226,12 @@ theorem KStep.join_release {k k' : K} (h : KStep k k') (hi : k.Inv) (j : Nat) (x
         exact ⟨_, rfl, hp, .inl ⟨by simp only; omega, rfl, rfl⟩⟩
       · rw [if_neg (fun h => h1 h.1)]
         exact ⟨_, rfl, hp, .inr ⟨by simp only; omega, rfl⟩⟩
+  | produce y => exact ⟨x, hx, hp, .inr ⟨hpos, rfl⟩⟩
+  | pwait j0 p0 _ _ _ => exact ⟨x, hx, hp, .inr ⟨hpos, rfl⟩⟩
+  | pput j0 p0 h0 _ _ =>
+    rw [K.pput_eq k j0 p0 h0]
+    exact ⟨x, hx, hp, .inr ⟨by simp [K.setPP], rfl⟩⟩
+  | pabort j0 p0 _ _ => exact ⟨x, hx, hp, .inr ⟨hpos, rfl⟩⟩
 
 /-- **at call time**: the first step of a `join()` task returns at once iff nothing is unfinished; otherwise it
 registers as a waiter of the event -/
